@@ -246,7 +246,12 @@ def run_none(case):
         opts = tdgl.SolverOptions(solve_time=8 * dt, dt_init=dt, dt_max=dt, adaptive=False, save_every=1, output_file=path,
                                   terminal_psi=None, include_screening=case["screening"], screening_tolerance=1e-2,
                                   progress_interval=10**9)
-        tdgl.solve(d, opts, **kw)
+        try:
+            tdgl.solve(d, opts, **kw)
+        except RuntimeError as exc:
+            if "converge" not in str(exc):
+                raise
+            res.count("solver_refused")  # documented failure; the frames written before it are still compared
         out.append(drivers.read_frames(path)[0])
     for fa, fb in zip(*out):
         s = int(fa["attrs"]["step"])
